@@ -393,6 +393,9 @@ func (so *SimpleOptimizer) binaryopInts(
 		}
 		val = left.Value / right.Value
 	case token.Rem:
+		if right.Value == 0 {
+			return nil, false
+		}
 		val = left.Value % right.Value
 	case token.And:
 		val = left.Value & right.Value
